@@ -175,7 +175,7 @@ def tableFrom (L : Nat) (g : List Nat) : Nat → List (List (Option Nat))
 /-- Optimum for frequencies sorted descending: depth 1, two open nodes,
 everything still to place. -/
 def optSorted (g : List Nat) (L : Nat) : Option Nat :=
-  if L = 0 then none else ((tableFrom L g (L - 1)).getD 2 []).headD none
+  if L = 0 then none else ((tableFrom L g (L - 1)).getD 2 (rowNone g)).headD none
 
 /-- Minimum of `cost f ℓ` over all complete codes `ℓ` (Kraft sum exactly one)
 for `f.length` symbols with every length in `1..L`; `none` if there is none
